@@ -206,7 +206,13 @@ impl Iterator for OsuGradualDifficulty {
 
 impl ExactSizeIterator for OsuGradualDifficulty {
     fn len(&self) -> usize {
-        self.diff_objects.len() + 1 - self.idx
+        // Without any objects there is neither a difficulty object nor a first
+        // object that could be processed without one.
+        if self.osu_objects.is_empty() {
+            0
+        } else {
+            self.diff_objects.len() + 1 - self.idx
+        }
     }
 }
 
